@@ -57,7 +57,7 @@ func (c *Ctx) checkRetentionSemantics(r *Report, ro *Roles, rule string) bool {
 		}
 	}
 	for _, maxAge := range []int64{1, 24, 168, 720, 999999, 2562047, 2562048, 3000000, 2147483647} {
-		for _, fileName := range []string{"app.log", "a"} {
+		for _, fileName := range []string{"app.log", "a", "app[12].log"} {
 			w, _, why := c.newFsWorld(ro)
 			if w == nil {
 				r.Inconclusive(key, "%s", why)
@@ -170,6 +170,12 @@ func (c *Ctx) checkRetentionSemantics(r *Report, ro *Roles, rule string) bool {
 			}
 			for _, sep := range []string{"-", "_", "@", ":", " ", "..", ""} {
 				add(fileName+sep+ts(old), false, old) // another separator in front of a well-formed timestamp
+			}
+			if strings.ContainsAny(fileName, "[]?*") {
+				// names a pattern reading of the file name would match
+				for _, n := range []string{"app1.log", "app2.log", "app.log"} {
+					add(n+"."+ts(old), false, old)
+				}
 			}
 			add("x"+fileName+"."+ts(old), false, old)
 			add(strings.ToUpper(fileName)+"."+ts(old), false, old)
@@ -408,7 +414,7 @@ func (c *Ctx) checkRetentionSemantics(r *Report, ro *Roles, rule string) bool {
 		return false
 	}
 	okAll = true
-	r.OK(key, "the function launched by a rotation evaluated over %d directory populations (%d entries; max ages 1, 24, 168, 720, 999999, 2562047 h and three ages whose duration overflows; two file names; sorted and unsorted listings): removed are exactly the regular files '<name>.<14-digit timestamp>' modified before the cut-off — not younger files (age by modification time, not by name), the file being written, directories, the bare name, name.wf.<ts>, name.audit.<ts>, name.bak, name.1.gz, timestamps with 13/15 digits, fractional seconds, signs, spaces or impossible dates, other prefixes or cases; removal paths are entries of the configured directory", nRuns, nEntries)
+	r.OK(key, "the function launched by a rotation evaluated over %d directory populations (%d entries; max ages 1, 24, 168, 720, 999999, 2562047 h and three ages whose duration overflows; three file names, one containing pattern characters; sorted and unsorted listings): removed are exactly the regular files '<name>.<14-digit timestamp>' modified before the cut-off — not younger files (age by modification time, not by name), the file being written, directories, the bare name, name.wf.<ts>, name.audit.<ts>, name.bak, name.1.gz, timestamps with 13/15 digits, fractional seconds, signs, spaces or impossible dates, other prefixes or cases; removal paths are entries of the configured directory", nRuns, nEntries)
 	return true
 }
 
